@@ -324,6 +324,11 @@ func renewRelease(r *Run) {
 		if r.Rng.Intn(3) == 0 {
 			ack.GatewayIPAddr = net.IP{203, 0, 113, 7}
 		}
+		if r.Rng.Intn(2) == 0 {
+			// a server may echo in ciaddr the address the client had when it asked (an earlier lease): the leased
+			// address is yiaddr all the same
+			ack.ClientIPAddr = net.IP{192, 168, 3, byte(1 + r.Rng.Intn(250))}
+		}
 		lease := &nclient4.Lease{Offer: offer, ACK: ack}
 		c.Renew(context.Background(), lease)
 		if err := c.Release(lease); err != nil {
